@@ -39,6 +39,25 @@ class Recorder:
         ck = self.ep._frame_fragment_cache._frames_by_stream_id
         return ('state', sorted(sc.keys()), sorted(ck.keys()))
 
+    def table_snapshot(self):
+        """what is registered right now, in table order, as the facts the close sweep depends on"""
+        out = []
+        for sid, h in self.ep._stream_control._streams.items():
+            kind = PKT.get(type(h).__name__, '?')
+            ent = {'sid': sid, 'oid': getattr(h, '_verif_oid', None), 'kind': kind}
+            if kind == 'KRRReq':
+                ent['pending'] = not h._future.done()
+            elif kind == 'KRRResp':
+                ent['pending'] = not h.future.done()
+            elif kind == 'KRSReq':
+                ent['has_sub'] = getattr(h, '_subscriber', None) is not None
+            elif kind in ('KChanReq', 'KChanResp'):
+                ent['has_sub'] = h.remote_subscriber is not None
+                ent['recv'] = h._received_complete
+                ent['has_pub'] = h.subscriber is not None and h.subscriber.subscription is not None
+            out.append(ent)
+        return out
+
     def label(self, *l):
         if getattr(self, 'stopped', False):
             return
@@ -170,6 +189,8 @@ class Recorder:
 
         def stop_all_streams(*a, **k):
             rec.label('close')
+            rec.pre_close_all = getattr(rec, 'pre_close_all', []) + [rec.table_snapshot()]
+            rec.pre_close = rec.pre_close_all[0]
             return orig_stop(*a, **k)
         ep.stop_all_streams = stop_all_streams
 
@@ -265,6 +286,8 @@ class RecPublisher:
 
     def cancel(self):
         self.rec.eff('pub', self.oid, ('cancel',))
+        if getattr(self.rec, 'pub_cancel_raises', False):
+            raise RuntimeError('publisher.cancel failed')
 
 
 class RecSubscriber:
